@@ -461,7 +461,7 @@ func c16Child(r *ev.Run, batch int) {
 	nb := r.N(8, 32)
 	c16LeaderPart(r, m, batch, nb)
 	c16HistPart(r, m, batch, nb)
-	shapes := r.N(4, 60)
+	shapes := r.N(4, 160)
 	methods := []string{ovsdb.MonitorRPC, ovsdb.ConditionalMonitorRPC, ovsdb.ConditionalMonitorSinceRPC}
 	idx := 0
 	for si := 0; si < shapes; si++ {
